@@ -88,6 +88,43 @@ Proof.
 Qed.
 End Lumping.
 
+(* heterogeneous mean-field SIR is written in (theta, Rk) coordinates: S_k = S0_k theta^k *)
+Section L7.
+Variables (t tau g : Q).
+Lemma lump_SIR_heterogeneous_meanfield_regular_partial k theta r s0 N :
+  ~ Qnat k == 0 -> ~ N == 0 -> ~ theta == 0 ->
+  let S := s0 * qpow theta (Z.of_nat k) in
+  let I := N - S - r in
+  let small := dSIR_homogeneous_meanfield [S; I] t (Qnat k / N) tau g in
+  let big := dSIR_heterogeneous_meanfield ([theta] ++ unitv k r) t (unitv k s0) (unitv k N) tau g in
+  Qnat k * s0 * qpow theta (Z.of_nat k - 1) * vnth 0 big == vnth 0 small /\
+  veq (slice_from 1 big) (unitv k (g * I)) /\
+  vnth 1 small == - vnth 0 small - g * I.
+Proof.
+  intros Hk HN Hth. cbv zeta.
+  unfold dSIR_heterogeneous_meanfield. cbn [app slice_from skipn vnth nth]. rewrite unitv_length.
+  unfold dSIR_homogeneous_meanfield. cbn [vnth nth].
+  set (Sk := vmul (unitv k s0) (spow_arange theta (S k))).
+  set (Ik := vsub (vsub (unitv k N) Sk) (unitv k r)).
+  assert (HS : veq Sk (unitv k (s0 * qpow theta (Z.of_nat k)))).
+  { subst Sk. apply veq_unitv; [veclen| |].
+    - intros i Hi. rewrite nth_vmul by veclen. rewrite nth_unitv_lt by lia. ring.
+    - rewrite nth_vmul, nth_spow_arange by veclen. rewrite nth_unitv_k. reflexivity. }
+  assert (HI : veq Ik (unitv k (N - s0 * qpow theta (Z.of_nat k) - r))).
+  { subst Ik. apply veq_unitv; [subst Sk; veclen| |].
+    - intros i Hi. rewrite !nth_vsub by (subst Sk; veclen). rewrite (veq_nth_all _ _ HS). rewrite !nth_unitv_lt by lia. ring.
+    - rewrite !nth_vsub by (subst Sk; veclen). rewrite (veq_nth_all _ _ HS). rewrite !nth_unitv_k. ring. }
+  assert (Hd1 : dot (arange (S k)) Ik == Qnat k * (N - s0 * qpow theta (Z.of_nat k) - r)).
+  { rewrite (dot_veq_r _ _ _ HI). rewrite dot_unitv by veclen. rewrite nth_arange by lia. reflexivity. }
+  assert (Hd2 : dot (arange (S k)) (unitv k N) == Qnat k * N).
+  { rewrite dot_unitv by veclen. rewrite nth_arange by lia. reflexivity. }
+  split; [|split].
+  - rewrite Hd1, Hd2. rewrite <- (qpow_pred theta k Hth). field. split; auto.
+  - etransitivity; [apply smul_veq; exact HI|]. apply smul_unitv.
+  - ring.
+Qed.
+End L7.
+
 (* ====================================================================== *)
 (* C07  EBCM -> super-compact pairwise under the change of variables        *)
 (*      SS = N psihat'(theta) phi_S,  SI = N psihat'(theta) phi_I           *)
